@@ -22,8 +22,9 @@ def shapes(n):
     return out
 
 
-def build(root, name, rows, emin, emax):
-    qbb = round(emin + emax + 0.05, 4)
+def build(root, name, rows, emin, emax, qbb=None):
+    if qbb is None:
+        qbb = round(emin + emax + 0.05, 4)
     d = os.path.join(root, name, 'data/dbd_gA/v1.0/Test/g0')
     try:
         info = gadata.write_dataset(d, rows, emin, emax, qbb, 'Test', 'g0')
@@ -73,7 +74,25 @@ def run(tier, rep):
                     names.append(nm)
                 else:
                     skipped += 1
-    # the repository's own test dataset, re-encoded with the repository's encoder
+    # grids that extend past the kinematic limit (E_min + E_max > Esum_max) with a null p.d.f. beyond it: the loader
+    # supports such files explicitly ("Should be zero!")
+    for n in (4, 5, 6):
+        for ri, (emin, emax) in enumerate(ranges):
+            step = (emax - emin) / (n - 1)
+            for frac in (0.55, 0.8):
+                qbb = round(emin + frac * (emin + emax), 4)
+                rows = [[(1.0 + ((3 * i + j) % 4)) if (emin + i * step) + (emin + j * step) <= qbb else 0.0 for j in range(n - i)] for i in range(n)]
+                # rows without probability cannot be encoded as c.d.f. by the documented encoder: p.d.f. file only
+                nm = 'n%d_beyondQ%d_r%d' % (n, int(frac * 100), ri)
+                dd = os.path.join(root, nm, 'data/dbd_gA/v1.0/Test/g0')
+                os.makedirs(dd)
+                with open(os.path.join(dd, 'tab_pdf.data'), 'w') as f:
+                    f.write('#isotope=Test\n#dbd_ga.mode=g0\n%.4f\nProbability %.16e %.16e %.16e %d\n' % (qbb, emin, emax, step, n))
+                    for r_ in rows:
+                        f.write(' '.join('%.7e' % v for v in r_) + '\n')
+                with open(os.path.join(dd, 'expect.txt'), 'w') as f:
+                    f.write('%d %.17g %.17g %.17g %.17g\n' % (-n, emin, emax, step, qbb))
+                names.append(nm)
     chunks = [names[i::16] for i in range(16)]
 
     def work(i):
